@@ -11,7 +11,7 @@ class Prop:
     pid = "C00"
     pkg = "snaps"
     test = "^TestVerifTrace$"
-    fields = {"obs": ["outcome", "errors", "logs", "writes", "~line"], "fs": "*", "counters": "*"}
+    fields = {"obs": ["outcome", "errors", "logs", "writes", "cfgsame", "~line"], "fs": "*", "counters": "*"}
     rule = ""
     outside_model = ""
     trusted = []
